@@ -142,4 +142,6 @@ def hessian(poly: PolyLike) -> ndpoly:
     # keep every indeterminant of `poly` in the gradient, also when unused names
     # are not retained, so that the result has one row/column for each of them.
     grad, _ = numpoly.align_indeterminants(gradient(poly), poly.indeterminants)
-    return gradient(grad)
+    # rows in the same (name) order as the columns that `gradient` produced.
+    polys = [derivative(grad, name)[numpy.newaxis] for name in poly.names]
+    return numpoly.concatenate(polys, axis=0)
